@@ -47,7 +47,7 @@ try:
     res["demo_patched"] = {"rc": rc1, "tail": out1}
     if not a.no_suite:
         junit = os.path.join(d, "_junit.xml")
-        subprocess.run(["/venv/bin/python", "-m", "pytest", "-q", "-p", "no:cacheprovider", "--timeout=900", "--continue-on-collection-errors",
+        subprocess.run(["/venv/bin/python", "-m", "pytest", "-q", "-p", "no:cacheprovider", "--timeout=900", "--continue-on-collection-errors", "--ignore=_demo.py", "--ignore=_out",
                         "--junitxml=" + junit], cwd=d, env=env, capture_output=True, text=True, timeout=3600)
         base = set(json.load(open("/root/.vp/BASELINE.json"))["stable_pass"])
         passed = set()
